@@ -272,7 +272,7 @@ def main():
     # ---- generated cases (pool) + corpus
     import cases
     jobs = []
-    corpus = load_corpus(pid)
+    corpus = load_corpus(pid, [x[0] for x in cfg.get("streams", [])])
     for c in corpus:
         if c.get("spec") and c.get("opt"):
             jobs.append((c["stream"], "corpus:" + c["_file"], None, {"spec": c["spec"], "opt": c["opt"]}))
@@ -459,14 +459,15 @@ def main():
     return status
 
 
-def load_corpus(pid):
+def load_corpus(pid, streams=None):
     d = os.path.join(VERIF, "corpus")
     out = []
     if os.path.isdir(d):
         for f in sorted(os.listdir(d)):
             if f.endswith(".json"):
                 c = json.load(open(os.path.join(d, f)))
-                if pid in c.get("props", []):
+                # an entry also serves every property whose own streams include the entry's stream
+                if pid in c.get("props", []) or (streams and c.get("stream") in streams and c.get("spec")):
                     c["_file"] = f[:-5]
                     out.append(c)
     return out
